@@ -343,4 +343,41 @@ def xrLoadR (c : Codec β) (r : String) (pfx : String) (url : Option String) (f 
       | _ => L
     | _ => L
 
+/-! ### `Renderable.url` (plasTeX/Renderers/__init__.py): where the saved target location comes from
+
+`Macro.persist` reads the `url` attribute of the labelled node; under a renderer that is this property.  It is a
+function of the state *of the current render* only: the override, the `base-url` setting, the file the node itself
+creates (if any) and the files its ancestors create — nothing is remembered from one call to the next. -/
+
+/-- the file table of one render as a labelled node sees it -/
+structure RenderView where
+  base : String                       -- `config['document']['base-url']`
+  own : Option String                 -- `self.filename`
+  ancestors : List (Option String)    -- `filename` of parent, grandparent, …
+
+/-- first ancestor whose filename is not `None` (`while node is not None and node.filename is None`) -/
+def enclosingFile : List (Option String) → String
+  | [] => ""
+  | some f :: _ => f
+  | none :: r => enclosingFile r
+
+/-- `Renderable.url` -/
+def nodeUrl (urloverride : Option String) (id : String) (v : RenderView) : String :=
+  match urloverride with
+  | some u => u
+  | none =>
+    let base := if v.base.endsWith "/" then (v.base.dropEnd 1).toString else v.base
+    match v.own with
+    | some f =>
+      if f ≠ "" then (if base ≠ "" then base ++ "/" ++ f else f)                  -- the node creates a file
+      else if base ≠ "" then base ++ "/" ++ enclosingFile v.ancestors ++ "#" ++ id
+      else enclosingFile v.ancestors ++ "#" ++ id
+    | none =>
+      if base ≠ "" then base ++ "/" ++ enclosingFile v.ancestors ++ "#" ++ id
+      else enclosingFile v.ancestors ++ "#" ++ id
+
+/-- the same node asked for its url in successive renders of one document object -/
+def renderUrls (urloverride : Option String) (id : String) (views : List RenderView) : List String :=
+  views.map (nodeUrl urloverride id)
+
 end PlasVerif.Model.Persist
